@@ -73,7 +73,12 @@ class Registry:
         self.contracts[c.qualname] = c
         return c
 
-    def loop_spec(self, qualname: str, ordinal: int) -> Optional[LoopSpec]:
+    def loop_spec(self, qualname: str, ordinal: int, st=None) -> Optional[LoopSpec]:
+        """Loop contracts are keyed by static ordinal (int) or by role (a predicate over the loop statement's ast, see pyvc.roles)."""
+        if st is not None:
+            for (qn, k), spec in self._loops.items():
+                if qn == qualname and callable(k) and k(st):
+                    return spec
         return self._loops.get((qualname, ordinal))
 
     def call_spec(self, qualname: str, obj=None) -> Optional[Callable]:
@@ -81,6 +86,10 @@ class Registry:
 
     def set_loops(self, qualname: str, loops: Dict[int, LoopSpec]):
         for k, v in loops.items():
+            if callable(k):
+                # a role predicate replaces an earlier registration of the same role (each path re-registers its own closures)
+                for old in [kk for kk in self._loops if kk[0] == qualname and callable(kk[1]) and kk[1].__name__ == k.__name__]:
+                    del self._loops[old]
             self._loops[(qualname, k)] = v
 
     def set_calls(self, calls: Dict[str, Callable]):
